@@ -273,6 +273,11 @@ class C15(Property):
             for t in itertools.product(ALPHA, repeat=n):
                 text = ''.join(t)
                 yield {'k': 'text', 'text': text, 'iters': True}
+        # characters that other line-splitting conventions (str.splitlines) treat as line ends but Python source does not
+        for n in range(1, 5):
+            for t in itertools.product(['\n', '\r', '\x0b', '\x0c', '\x1c', '\x85', '\u2028', 'a'], repeat=n):
+                if any(c in t for c in ('\x0b', '\x0c', '\x1c', '\x85', '\u2028')):
+                    yield {'k': 'text', 'text': ''.join(t), 'iters': True}
         for a0 in ENDPOINTS:
             for a1 in ENDPOINTS:
                 if a0 > a1:
